@@ -577,12 +577,17 @@ func (g *genPkg) genFunc(fi *FuncInfo, specNames map[string]bool) error {
 			}
 			if name == a.Callee {
 				cnt++
-				if cnt == a.Ord {
+				if cnt == a.Ord || (a.Ord == 0 && cnt == 1) {
 					anchorPos = ce.Pos()
 				}
 			}
 			return true
 		})
+		if anchorPos == token.NoPos && a.Ord == 0 {
+			// `at call f#* ...` speaks about every call of f; with no call left it says nothing
+			a.C.GoName = ""
+			continue
+		}
 		if anchorPos == token.NoPos {
 			return fmt.Errorf("%s: call %s#%d not found", fc.Key(), a.Callee, a.Ord)
 		}
